@@ -594,6 +594,461 @@ def rule_stretch(ctx, mod):
     ctx.floor('C16.G1.origin', 4)
 
 
+
+# --------------------------------------------------------------------------
+def bind_call(call, fn):
+    """parameter name -> argument node of a call of `fn`."""
+    ps = au.all_params(fn)
+    out = dict(zip(ps, call.args))
+    for k in call.keywords:
+        if k.arg:
+            out[k.arg] = k.value
+    return out
+
+
+def loop_of(name_node, fn):
+    """Innermost enclosing `for` whose target is that name."""
+    for p in au.ancestors(name_node, fn):
+        if isinstance(p, ast.For) and isinstance(p.target, ast.Name) and \
+                p.target.id == name_node.id:
+            return p
+    return None
+
+
+def rule_search(ctx, mod):
+    fn = mod.func('origin_and_widths')
+    sfn = mod.func('_stretch')
+    sp_ = au.all_params(sfn)
+    calls = au.calls(fn, '_stretch')
+    ctx.anchor(len(calls) == 2, 'two _stretch calls in origin_and_widths')
+    where = ctx.where(mod, fn)
+    # which call fills the survey domain (A) and which the buffer (B): B
+    # extends what A returned
+    unp = {}
+    for c in calls:
+        st = au.enclosing_stmt(c)
+        ctx.anchor(isinstance(st, ast.Assign) and isinstance(
+            st.targets[0], ast.Tuple) and len(st.targets[0].elts) == 3 and
+            all(isinstance(e, ast.Name) for e in st.targets[0].elts),
+            'edges, widths, remain = _stretch(...)')
+        unp[id(c)] = [e.id for e in st.targets[0].elts]
+    b0, b1 = bind_call(calls[0], sfn), bind_call(calls[1], sfn)
+    if isinstance(b0[sp_[0]], ast.Name) and b0[sp_[0]].id == unp[id(
+            calls[1])][0]:
+        calls = calls[::-1]
+        b0, b1 = b1, b0
+    A, B = calls
+    ok = isinstance(b1[sp_[0]], ast.Name) and isinstance(
+        b1[sp_[1]], ast.Name) and [b1[sp_[0]].id, b1[sp_[1]].id] == unp[
+            id(A)][:2]
+    ctx.check('C16.G3.search', 'buffer cells extend the survey-domain part',
+              ok, 'the second _stretch call does not start from the edges '
+              'and widths the first one returned', ctx.where(mod, B))
+    # permitted cell numbers
+    cn = find("_c_ = kwargs.pop('cell_numbers', _d_)", fn)
+    ctx.anchor(len(cn) == 1, "kwargs.pop('cell_numbers', ...)")
+    C, dflt = cn[0][1]['_c_'], cn[0][1]['_d_']
+    ctx.check('C16.G3.search', 'default cell numbers are the multigrid-'
+              'friendly ones', dflt.replace(' ', '') in (
+                  'good_mg_cell_nr()', 'good_mg_cell_nr(1024,5,3)'),
+              f'default of cell_numbers is `{dflt}`', ctx.where(mod,
+                                                               cn[0][0]))
+    for nm, c, b in (('survey domain', A, b0), ('buffer', B, b1)):
+        a = b.get(sp_[3])
+        lp = loop_of(a, fn) if isinstance(a, ast.Name) else None
+        ok = lp is not None and any(same(t, lp.iter) is not None for t in (
+            f'np.unique({C})', f'sorted({C})', f'np.sort({C})', C,
+            f'sorted(set({C}))'))
+        ctx.check('C16.G3.search', f'{nm}: number of cells is one of the '
+                  'permitted numbers', ok, f'_stretch gets nx=`'
+                  f'{ast.unparse(a) if a is not None else None}`, which is '
+                  'not the loop variable over the permitted cell numbers: '
+                  'the mesh can come out with another cell count',
+                  ctx.where(mod, c))
+    # stretching factors drawn from the permitted ranges
+    stq = find("_s_ = kwargs.pop('stretching', __)", fn)
+    ctx.anchor(len(stq) == 1, "kwargs.pop('stretching', ...)")
+    S_ = stq[0][1]['_s_']
+    la = loop_of(b0[sp_[2]], fn) if isinstance(b0[sp_[2]], ast.Name) else None
+    lb = loop_of(b1[sp_[2]], fn) if isinstance(b1[sp_[2]], ast.Name) else None
+    oka = la is not None and same(f'np.linspace(1.0, {S_}[0], __)',
+                                  la.iter) is not None
+    okb = lb is not None and la is not None and same(
+        f'np.linspace({la.target.id}, {S_}[1], __)', lb.iter) is not None
+    ctx.check('C16.G3.search', 'stretching in the survey domain within '
+              '[1, stretching[0]]', oka, 'the factor handed to _stretch for '
+              'the survey domain is not drawn from np.linspace(1, '
+              'stretching[0], n): widths can grow faster than permitted',
+              ctx.where(mod, A))
+    ctx.check('C16.G3.search', 'stretching in the buffer within '
+              '[sa, stretching[1]]', okb, 'the factor handed to _stretch '
+              'for the buffer is not drawn from np.linspace(sa, '
+              'stretching[1], n)', ctx.where(mod, B))
+    # domains
+    dom_par = au.params(fn)[3]
+    ok = isinstance(b0[sp_[4]], ast.Name) and b0[sp_[4]].id == dom_par
+    ctx.check('C16.G3.search', 'first fill reaches the survey domain', ok,
+              f'the survey-domain fill is tested against '
+              f'`{ast.unparse(b0[sp_[4]])}`, not the survey domain',
+              ctx.where(mod, A))
+    cdn = b1[sp_[4]].id if isinstance(b1[sp_[4]], ast.Name) else None
+    up = b1.get(sp_[5])
+    ctx.check('C16.G3.search', 'buffer fill uses all remaining cells',
+              isinstance(up, ast.Constant) and up.value is True,
+              'the buffer is not built with use_up=True: the mesh has fewer '
+              'cells than the permitted number that was tried',
+              ctx.where(mod, B))
+    # result: origin and widths of the successful buffer call
+    eB, wB, rB = unp[id(B)]
+    fin = [n for n in ast.walk(fn) if isinstance(n, ast.Assign) and
+           isinstance(n.value, ast.Constant) and n.value.value is True and
+           isinstance(n.targets[0], ast.Name)]
+    flag = None
+    for n in ast.walk(fn):
+        if isinstance(n, ast.If) and any(isinstance(x, ast.Raise)
+                                         for x in ast.walk(n)) and \
+                'No suitable grid' in ast.unparse(n):
+            t = n.test
+            if isinstance(t, ast.UnaryOp) and isinstance(t.operand, ast.Name):
+                flag = t.operand.id
+            elif isinstance(t, ast.Name):
+                flag = t.id
+    ctx.anchor(flag, 'success flag tested before "No suitable grid found"')
+    sets = [n for n in fin if n.targets[0].id == flag]
+    from ..core.canon import ct
+    ok = len(sets) >= 1 and all(any(
+        g == ct(f'{rB} is not False') for g in au.guard_texts(n, fn))
+        for n in sets)
+    ctx.check('C16.G3.search', 'success only if the buffer fill succeeded',
+              ok, f'`{flag} = True` is not under `{rB} is not False` (the '
+              'sentinel of the buffer fill): a mesh that does not cover the '
+              'computation domain / has too many cells is accepted', where)
+    rets = [r for r in ast.walk(fn) if isinstance(r, ast.Return) and
+            isinstance(r.value, ast.Tuple) and len(r.value.elts) >= 2]
+    ctx.anchor(len(rets) >= 1, 'return x0, hx')
+    for r in rets:
+        x0, hx = r.value.elts[0], r.value.elts[1]
+        vx = [ast.unparse(v) for v in au.values_of(x0, [fn], depth=1)]
+        vh = [ast.unparse(v) for v in au.values_of(hx, [fn], depth=1)]
+        okx = set(vx) <= {f'{eB}[0]', 'None'} and f'{eB}[0]' in vx
+        okh = (isinstance(hx, ast.Name) and hx.id == wB) or set(vh) <= {
+            wB, 'None'}
+        ctx.check('C16.G3.search', f'returned origin / widths are those of '
+                  f'the successful fill (`{ast.unparse(r)[:30]}`)',
+                  okx and okh, f'origin is {vx}, widths are {vh}; expected '
+                  f'`{eB}[0]` and `{wB}` of the buffer fill (or None on '
+                  'failure)', ctx.where(mod, r))
+    # failure is loud
+    raises = [n for n in ast.walk(fn) if isinstance(n, ast.Raise) and
+              'RuntimeError' in ast.unparse(n) and any(
+                  g == ct(f'not {flag}') for g in au.guard_texts(n, fn))]
+    rerr = find("_r_ = kwargs.pop('raise_error', True)", fn)
+    ctx.anchor(len(rerr) == 1, "kwargs.pop('raise_error', True)")
+    ok = len(raises) == 1 and set(au.guard_texts(raises[0], fn)) <= {
+        ct(f'not {flag}'), rerr[0][1]['_r_']}
+    ctx.check('C16.G4.failure', 'origin_and_widths: no mesh -> error', ok,
+              'no RuntimeError is raised when no candidate fits',
+              ctx.where(mod, raises[0] if raises else fn))
+    cm = mod.func('construct_mesh')
+    ow = au.calls(cm, 'origin_and_widths')
+    ctx.anchor(len(ow) == 3, 'three origin_and_widths calls in '
+               'construct_mesh')
+    firsts = []
+    for c in ow:
+        st = au.enclosing_stmt(c)
+        if isinstance(st, ast.Assign) and isinstance(st.targets[0],
+                                                     ast.Tuple):
+            firsts.append(st.targets[0].elts[0].id)
+    rs = [n for n in ast.walk(cm) if isinstance(n, ast.Raise)]
+    ok = False
+    for r in rs:
+        gt = au.guards_of(r, cm)
+        if gt and all(f in ast.unparse(gt[-1][0]) for f in firsts) and \
+                'is None' in ast.unparse(gt[-1][0]) and 'any' in ast.unparse(
+                    gt[-1][0]):
+            ok = True
+    ctx.check('C16.G4.failure', 'construct_mesh: a direction without mesh '
+              '-> error', ok and len(firsts) == 3, 'construct_mesh does not '
+              'raise when one of the three directions returned None '
+              f'(origins {firsts})', ctx.where(mod, cm))
+    return fn, dom_par, cdn
+
+
+def rule_domain(ctx, mod, fn, D, CD):
+    """G5: computation domain = survey domain + buffer."""
+    where = ctx.where(mod, fn)
+    wl = find('_w_ = _lf_ * wavelength(_sk_[1:])', fn)
+    ctx.anchor(len(wl) == 1, 'wavelength of the buffer properties')
+    W = wl[0][1]['_w_']
+    lfp = find("_lf_ = kwargs.pop('lambda_factor', 1.0)", fn,
+               {'_lf_': wl[0][1]['_lf_']})
+    mb = find("_mb_ = kwargs.pop('max_buffer', __)", fn)
+    ctx.anchor(len(mb) == 1 and len(lfp) == 1, 'max_buffer / lambda_factor')
+    MB = mb[0][1]['_mb_']
+    cen = au.params(fn)[2]
+    plain = find(f'_b_ = np.min([{W}, np.ones(2) * {MB}], axis=0)', fn)
+    okp = len(plain) == 1 and has(
+        f'{CD} = np.array([{D}[0] - {plain[0][1]["_b_"]}[0], '
+        f'{D}[1] + {plain[0][1]["_b_"]}[1]])', fn)
+    ctx.check('C16.G5.domain', 'computation domain = survey domain + '
+              'min(wavelength, max_buffer)', okp, 'the computation domain is '
+              'not [domain[0] - b[0], domain[1] + b[1]] with b = '
+              'min(lambda_factor * wavelength, max_buffer): the mesh need '
+              'not cover the requested buffer', where)
+    lfc = find(f'_i_ = abs({D} - {cen})', fn)
+    okc = len(lfc) == 1
+    if okc:
+        I_ = lfc[0][1]['_i_']
+        db = find(f'_d_ = np.max([np.zeros(2), (2 * {W} - {I_}) / 2], '
+                  'axis=0)', fn)
+        okc = len(db) == 1 and has(
+            f'{CD} = np.array([{D}[0] - {db[0][1]["_d_"]}[0], '
+            f'{D}[1] + {db[0][1]["_d_"]}[1]])', fn) and has(
+            f'{CD}[0] = max({CD}[0], {cen} - {MB})', fn) and has(
+            f'{CD}[1] = min({CD}[1], {cen} + {MB})', fn)
+    ctx.check('C16.G5.domain', 'computation domain with lambda_from_center',
+              okc, 'with lambda_from_center the buffer is not max(0, (2 '
+              'lambda - distance to the centre)/2) per side, capped at '
+              'centre -/+ max_buffer', where)
+    # formulas
+    lf = Lifter(where=MESH, sym_assume={'positive': True})
+    sk = mod.func('skin_depth')
+    f, sig, mur = (sp.Symbol(x, positive=True) for x in au.params(sk))
+    rets = [r for r in ast.walk(sk) if isinstance(r, ast.Return)]
+    body = [n for n in au.body_nodoc(sk)]
+    try:
+        from ..expr.lift import straight_paths
+        lf2 = Lifter({au.params(sk)[0]: f, au.params(sk)[1]: sig,
+                      au.params(sk)[2]: mur, 'sp.constants.mu_0':
+                      sp.Symbol('mu0', positive=True)}, where=MESH)
+        paths = straight_paths(body, lf2)
+        vals = {}
+        for p_ in paths:
+            if p_.returned and p_.returned[0] == 'value':
+                lap = p_.holds(f'{au.params(sk)[0]} < 0')
+                vals[bool(lap)] = p_.returned[1]
+        mu0 = sp.Symbol('mu0', positive=True)
+        want = 1 / sp.sqrt(sp.pi * f * sig * mur * mu0)
+        okf = False in vals and equal(vals[False], want) and True in vals \
+            and equal(vals[True], want / sp.sqrt(2 * sp.pi))
+    except AnalysisError:
+        okf = False
+    ctx.check('C16.G5.formulas', 'skin depth = 1/sqrt(pi |f| sigma mu) '
+              '(Laplace: / sqrt(2 pi))', okf, 'skin_depth() is not the '
+              'documented formula: minimum width and buffer are derived '
+              'from another length', ctx.where(mod, sk))
+    wv = mod.func('wavelength')
+    rw = [r for r in ast.walk(wv) if isinstance(r, ast.Return)]
+    okw = len(rw) == 1 and same(f'2 * np.pi * {au.params(wv)[0]}',
+                                rw[0].value) is not None
+    ctx.check('C16.G5.formulas', 'wavelength = 2 pi skin depth', okw,
+              'wavelength() is not 2 pi delta', ctx.where(mod, wv))
+    cw = mod.func('cell_width')
+    cp = au.params(cw)
+    okc = has(f'_c_ = {cp[0]} / {cp[1]}', cw) and (
+        has(f'_c_ = np.clip(_c_, *{cp[2]})', cw) or
+        has(f'_c_ = np.clip(_c_, {cp[2]}[0], {cp[2]}[1])', cw))
+    ctx.check('C16.G5.formulas', 'cell width = skin depth / pps, clipped to '
+              'the limits', okc, 'cell_width() is not delta/pps restricted '
+              'to [min, max]', ctx.where(mod, cw))
+    dm = find(f'_d_ = cell_width(_sk_[0], _pps_, _lim_)', fn)
+    ctx.check('C16.G5.formulas', 'minimum width from the skin depth at the '
+              'centre', len(dm) == 1, 'the minimum cell width is not '
+              'cell_width(skin depth of the first property, pps, limits)',
+              where)
+
+
+def rule_seasurface(ctx, mod):
+    fn = mod.func('_seasurface')
+    ps = au.params(fn)
+    E, Wd, SS, ST, VEC = ps[0], ps[1], ps[3], ps[4], ps[5]
+    rets = [r for r in au.walk_local(fn) if isinstance(r, ast.Return)]
+    ctx.anchor(len(rets) == 1 and same(f'({E}, {Wd})', rets[0].value)
+               is not None, f'_seasurface returns ({E}, {Wd})')
+    nv = find(f'_n_ = np.r_[{E}[0], {E}[0] + np.cumsum({Wd})]', fn)
+    ok = len(nv) == 1
+    if ok:
+        ck = find(f'_c_ = min(abs({nv[0][1]["_n_"]} - {SS}))', fn)
+        ok = len(ck) == 1
+    warn = [n for n in ast.walk(fn) if isinstance(n, ast.Expr) and
+            'warnings.warn' in ast.unparse(n)]
+    if ok and len(warn) == 1:
+        gt = au.guard_texts(warn[0], fn)
+        from ..core.canon import ct
+        c_ = ck[0][1]['_c_']
+        ok = gt in ([ct(f'not np.isclose(0.0, {c_})')],
+                    [ct(f'not np.isclose({c_}, 0.0)')])
+        # on every path to the return, after the last change of the result
+        cfg = CFG(fn)
+        wn, rn = cfg.node_of(warn[0]), cfg.node_of(rets[0])
+        tn = cfg.node_of(au.enclosing(warn[0], ast.If))
+        dom = cfg.dominators()
+        ok = ok and dom(tn, rn)
+        later = [n for n in cfg.nodes if n.kind == 'stmt' and n.ast is not
+                 None and isinstance(n.ast, (ast.Assign, ast.AugAssign)) and
+                 any(ast.unparse(t).split('[')[0] in (E, Wd) for t in (
+                     n.ast.targets if isinstance(n.ast, ast.Assign)
+                     else [n.ast.target]))]
+        nvn = cfg.node_of(nv[0][0])
+        ok = ok and not any(x in cfg.reachable_between(nvn, rn)
+                            for x in later)
+    else:
+        ok = False
+    ctx.check('C16.G6.seasurface', 'sea surface is a node of the returned '
+              'part, or a warning says it is not', ok, 'the test '
+              '"seasurface is a node" (and its warning) is not made on the '
+              'nodes of the RETURNED edges / widths on every path: the sea '
+              'surface can silently end up inside a cell',
+              ctx.where(mod, fn))
+    # a provided vector is kept
+    keep = find(f'{Wd} = np.r_[{Wd}, _h_]', fn)
+    fr = [n for n in ast.walk(fn) if isinstance(n, ast.Assign) and
+          ast.unparse(n.value).replace(' ', '') in ('[1.0]', '[1.0,]')]
+    okv = len(keep) == 1 and any(
+        f'{VEC} is not None' in g or f'{VEC}isnotNone' in g
+        for n in fr for g in au.guard_texts(n, fn))
+    ctx.check('C16.G6.seasurface', 'widths of a provided vector are kept',
+              okv, 'with a provided vector the existing widths are not kept '
+              'unchanged (only cells appended, no squeezing factors): nodes '
+              'of the vector are lost', ctx.where(mod, fn))
+    # extra stretching allowance
+    acc = [n for n in ast.walk(fn) if isinstance(n, ast.If) and
+           'alph' in ast.unparse(n.test) and isinstance(n.test, ast.Compare)]
+    am = [ast.unparse(n.value).replace(' ', '') for n in ast.walk(fn)
+          if isinstance(n, ast.Assign) and f'{ST}[0]' in ast.unparse(n.value)
+          and '*' in ast.unparse(n.value)]
+    oka = sorted(am) == sorted([f'1.1*{ST}[0]', f'1.25*{ST}[0]']) and any(
+        f'{ST}[1]' in ast.unparse(n.test) and 'min' in ast.unparse(n.test)
+        for n in acc)
+    ctx.check('C16.G6.seasurface', 'sea-surface cells: documented stretching '
+              'allowance', oka, 'the cells between centre and sea surface '
+              'are accepted with another limit than min(1.1 / 1.25 x '
+              f'stretching[0], stretching[1]) (found {am})',
+              ctx.where(mod, fn))
+
+
+def rule_routing(ctx, mod):
+    cm = mod.func('construct_mesh')
+    ps = au.params(cm)
+    cen, sea = ps[2], ps[5] if len(ps) > 5 else 'seasurface'
+    dicts = {}
+    for i, ax in enumerate('xyz'):
+        f = find(f"_p_ = {{'center': {cen}[{i}]}}", cm) + find(
+            f"_p_ = {{'center': {cen}[{i}], 'seasurface': _s_}}", cm)
+        ctx.check('C16.G7.routing', f'centre of direction {ax}',
+                  len(f) == 1, f'the {ax} parameters do not get '
+                  f'center[{i}]', ctx.where(mod, cm))
+        if f:
+            dicts[ax] = (f[0][1]['_p_'], f[0][1].get('_s_'))
+    if len(dicts) == 3:
+        ctx.check('C16.G7.routing', 'sea surface only in z',
+                  dicts['x'][1] is None and dicts['y'][1] is None and
+                  dicts['z'][1] is not None, 'seasurface is not routed to '
+                  'the z direction only', ctx.where(mod, cm))
+        calls = au.calls(cm, 'origin_and_widths')
+        res = {}
+        for c in calls:
+            st = au.enclosing_stmt(c)
+            kws = [ast.unparse(k.value) for k in c.keywords if k.arg is None]
+            for ax in 'xyz':
+                if dicts[ax][0] in kws and isinstance(st, ast.Assign):
+                    res[ax] = [e.id for e in st.targets[0].elts[:2]]
+        tm = [c for c in au.calls(cm) if ast.unparse(c.func) == 'TensorMesh']
+        ok = len(res) == 3 and len(tm) == 1
+        if ok:
+            kw = {k.arg: ast.unparse(k.value).replace(' ', '')
+                  for k in tm[0].keywords}
+            ok = kw.get('h') == f"[{res['x'][1]},{res['y'][1]},{res['z'][1]}]" \
+                and kw.get('origin') in (
+                    f"np.array([{res['x'][0]},{res['y'][0]},{res['z'][0]}])",
+                    f"[{res['x'][0]},{res['y'][0]},{res['z'][0]}]",
+                    f"({res['x'][0]},{res['y'][0]},{res['z'][0]})")
+        ctx.check('C16.G7.routing', 'mesh from the three directions in '
+                  'order', ok, 'TensorMesh is not built from (hx, hy, hz) '
+                  'and (x0, y0, z0) of the x, y and z searches',
+                  ctx.where(mod, cm))
+    # properties per direction
+    table = {3: (['0', '2', '2'], ['0', '2', '2'], ['0', '1', '2']),
+             4: (['0', '1', '1'], ['0', '1', '1'], ['0', '2', '3']),
+             7: (['0', '1', '2'], ['0', '3', '4'], ['0', '5', '6'])}
+    P = ps[1]
+    for n, rows in table.items():
+        okn = True
+        for ax, row in zip('xyz', rows):
+            if ax not in dicts:
+                okn = False
+                continue
+            want = '[' + ', '.join(f'{P}[{i}]' for i in row) + ']'
+            hits = [m_ for m_, _b in find(
+                f"{dicts[ax][0]}['properties'] = {want}", cm)
+                if any(f'len({P})=={n}' in g for g in au.guard_texts(m_, cm))]
+            okn = okn and len(hits) == 1
+        ctx.check('C16.G7.routing', f'{n} properties: centre / negative / '
+                  'positive side per direction', okn, f'with {n} properties '
+                  'the directions do not get (centre, lower, upper) as '
+                  'documented', ctx.where(mod, cm))
+
+
+def rule_numbers(ctx, mod):
+    fn = mod.func('good_mg_cell_nr')
+    ps = au.params(fn)
+    ok = has(f'_l_ = _l_[_l_ <= {ps[1]}]', fn) and has(
+        f'_n_ = _l_[:, None] * 2 ** np.arange({ps[2]}, __)', fn) and any(
+        same(f'_n_[_n_ <= {ps[0]}]', r.value) is not None
+        for r in ast.walk(fn) if isinstance(r, ast.Return))
+    lows = find('_l_ = np.array(_v_, dtype=__)', fn)
+    try:
+        lo = ast.literal_eval(lows[0][1]['_v_']) if lows else []
+    except Exception:
+        lo = []
+    ok = ok and lo and lo[0] == 2 and all(x % 2 == 1 for x in lo[1:])
+    ctx.check('C16.G8.numbers', 'good_mg_cell_nr: p * 2**n, p = 2 or odd, '
+              'p <= max_lowest, n >= min_div, <= max_nr', ok,
+              'the permitted cell numbers are not {p 2^n} with the '
+              'documented restrictions', ctx.where(mod, fn))
+    ow = mod.func('origin_and_widths')
+    V, CEN = au.params(ow)[4], au.params(ow)[2]
+    dm = find('_d_ = cell_width(__, __, __)', ow)
+    ctx.anchor(len(dm) == 1, 'minimum width in origin_and_widths')
+    DM = dm[0][1]['_d_']
+    okc = has(f'{V} = np.r_[{CEN} - {DM}, {CEN}, {CEN} + {DM}]', ow)
+    okm = has(f'_e_ = np.r_[{CEN} - {DM} / 2, {CEN} + {DM} / 2]', ow)
+    ctx.check('C16.G8.centre', 'centre on a node (center_on_edge)', okc,
+              'with center_on_edge the centre part is not [c - d, c, c + d]',
+              ctx.where(mod, ow))
+    ctx.check('C16.G8.centre', 'centre at a cell centre', okm,
+              'without center_on_edge the centre cell is not [c - d/2, '
+              'c + d/2]', ctx.where(mod, ow))
+    okv = has(f'_w_ = np.diff({V})', ow) and has(
+        f'_e_ = np.r_[{V}[0], {V}[-1]]', ow)
+    ctx.check('C16.G8.centre', 'a provided vector is the centre part', okv,
+              'the nodes of a provided vector are not taken over as the '
+              'centre part (widths = diff(vector), edges = its ends)',
+              ctx.where(mod, ow))
+    cut = has(f'{V} = {V}[_a_[-1]:]', ow) and has(f'{V} = {V}[:_b_[1]]', ow)
+    ctx.check('C16.G8.centre', 'vector cut to the domain keeps the nodes '
+              'inside', cut, 'the provided vector is not cut at the last '
+              'node <= domain[0] / the first node >= domain[1]: nodes '
+              'inside the domain are dropped', ctx.where(mod, ow))
+
+
 def run(ctx):
+    ctx.explanation = (
+        '_stretch is interpreted abstractly over array LENGTHS and prefix '
+        'sums on all if/else paths (count of returned cells, make-up of the '
+        'returned widths, returned edges, success guard); the search of '
+        'origin_and_widths, the failure paths, the buffer / skin-depth '
+        'formulas, the sea-surface warning and the per-direction routing of '
+        'construct_mesh are read off the AST / CFG.  The numeric outcome of '
+        'the search is not decided.')
+    ctx.assumptions = ['np.r_ concatenates, a[:k] has k entries for k <= '
+                       'len(a), np.sum of a comparison counts its true '
+                       'entries', 'numeric post-conditions of the search '
+                       '(brentq, candidate enumeration) are not decided']
     mod = ctx.repo.mod(MESH)
     rule_stretch(ctx, mod)
+    fn, D, CD = rule_search(ctx, mod)
+    rule_domain(ctx, mod, fn, D, CD)
+    rule_seasurface(ctx, mod)
+    rule_routing(ctx, mod)
+    rule_numbers(ctx, mod)
